@@ -1,4 +1,5 @@
 import Pyx12Verif.Props.C09
+import Pyx12Verif.Props.C09Walk
 open Pyx12Verif.Ctx
 #print axioms run_parts
 #print axioms no_crash
@@ -10,3 +11,16 @@ open Pyx12Verif.Ctx
 #print axioms plain_is_outside
 #print axioms tree_count
 #print axioms tree_shape_follows_path
+
+#print axioms Pyx12Verif.CtxWalk.walk_facts
+#print axioms Pyx12Verif.CtxWalk.step_consistent
+#print axioms Pyx12Verif.CtxWalk.run_consistent
+#print axioms Pyx12Verif.CtxWalk.lidOK_of_bool
+#print axioms Pyx12Verif.CtxWalk.answers_consistent_of_run
+#print axioms Pyx12Verif.CtxWalk.answers_consistent
+#print axioms Pyx12Verif.CtxWalk.answersOf_segs
+#print axioms Pyx12Verif.CtxWalk.partition_generated
+#print axioms Pyx12Verif.CtxWalk.instances_generated
+#print axioms Pyx12Verif.CtxWalk.no_crash_generated
+#print axioms Pyx12Verif.CtxWalk.answers_consistent_multi
+#print axioms Pyx12Verif.CtxWalk.partition_generated_multi
